@@ -852,6 +852,14 @@ pub fn run(ctx: &Ctx) -> i32 {
                         }
                         let dir = scratch.join(format!("t{}", t));
                         let o = run_fst(bin, &dir, &ins[*ii], cfg, &[], &[]);
+                        match cfg.defaults {
+                            1 => ev.count("runs:with-the-tools-default-options"),
+                            2 => ev.count(if one_cpu_wrapper().is_empty() { "runs:with-the-tools-default-options" } else { "runs:with-the-tools-default-options-confined-to-one-cpu" }),
+                            _ => {}
+                        }
+                        if ins[*ii].name.starts_with("batch-count-around") {
+                            ev.count("runs:batch-count-around-a-power-of-the-fan-in");
+                        }
                         judge(&ins[*ii], cfg, &o, &mut ev, &mut trees, &mut assigns);
                         // inputs without repeated keys: byte-identical to the command line's OWN sorted build of the same data
                         // (every 3rd such run; half of the sorted builds overwrite a longer existing file)
